@@ -30,6 +30,50 @@ add("C14", "exhaustive enumeration of all ordered step selections against an ind
     "Trusts the steps_required/steps_optional declarations as the specification; exhaustive only for the steps "
     "registered in nanite.preproc.PREPROCESSORS at run time.")
 
+add("C02", "Hypothesis-generated parameters/abscissae vs independent 40-digit mpmath reference formulas; exact implicit "
+           "Sneddon sphere solver for the truncation bound",
+    "Generated search over the whole parameter box of the five shipped models (values at and near bounds, points at the "
+    "contact point and its neighbouring floats, unsorted arrays): force equals the independently written published "
+    "formula to a stated round-off bound, equals the baseline bit-exactly off contact, the sphere series stays within "
+    "1e-4 of max force of the exact Sneddon solution for depths up to R, and each docstring states the constants "
+    "the code uses. 16 000 cases quick, 1.6e6 thorough.",
+    "Trusts mpmath and the reference formulas in vlib/refmodels.py (written from the papers, Bilodeau constant 0.8887); "
+    "sampling cannot prove absence of a deviation in an unexplored corner of the box.")
+
+add("C04", "Hypothesis-generated curves and fit configurations; outputs recomputed from the reported numbers with "
+           "independent reference formulas",
+    "For generated synthetic and recorded curves x model x segment x range x weighting x correction factor x "
+    "fixed/varied/bounded parameters: fit column == reference model at the reported parameters (NaN off segment), "
+    "residual column == (data - fit) x linear contact-point weights, chi-square == sum of squared residuals over the "
+    "fit range, fixed parameters unchanged, varied ones inside bounds, expression parameters satisfy their expression, "
+    "unsuccessful fits leave NaN columns and success False.",
+    "Tolerances 1e-9 of the force range (stated in the evidence); exploration only - holds on the generated cases.")
+
+add("C05", "Hypothesis-generated intervals (on/between samples, inverted, one-sided, zero width) with set-equality oracle; "
+           "harness-side lmfit.minimize recorder for multi-pass anchoring",
+    "The reported fit-range mask is compared for exact set equality with segment & closed interval; for 'relative cp' "
+    "the anchor is the contact point returned by the third optimisation (observed from outside) and convergence of "
+    "the anchor is asserted on exact model curves; plateau search: sample count, monotonic grid, optimal depth "
+    "inside the scan, final mask from the optimal depth; xmin/xmax equal the extreme used abscissae.",
+    "Observes lmfit.minimize calls by wrapping the function from the harness; exploration only.")
+
+add("C11", "metamorphic relation fit(k) vs fit(1) on Hypothesis-generated synthetic curves with known truth; "
+           "minimize recorder on every pass",
+    "For the three power-law models, k in (0.05, 2], both segments, absolute / contact-point-relative / plateau-search "
+    "ranges and non-zero initial contact points: contact point, baseline, fit column, xmin/xmax agree with the k=1 "
+    "fit and E(k) k^p == E(1); the initial contact point handed to the optimiser is the caller's value times k in "
+    "every pass; the caller's parameter object is unchanged.",
+    "leastsq only; agreement tolerance 2e-6 of the natural scale (noise-proportional on noisy data); ill-conditioned "
+    "noisy sub-problems are excluded by a stated rule and counted in the evidence.")
+
+add("C13", "metamorphic relations (orientation, translation, baseline additivity, modulus linearity, continuity, "
+           "monotonicity, residual definition) on Hypothesis-generated inputs for every registered model incl. "
+           "harness-defined user models",
+    "All shipped models plus two harness-defined user models (one deliberately order sensitive, one with an "
+    "expression parameter and ancillaries) are evaluated through the registry's model/residual wrappers on generated "
+    "monotonic abscissae of either orientation.",
+    "The third-party model 'sneddon_spher' (not in /repo) is excluded; tolerances stated in the evidence.")
+
 NOT_YET = {}
 
 ALL = [f"C{i:02d}" for i in range(1, 21)]
